@@ -88,8 +88,11 @@ def det_cls(w):
 
 
 def run_wrapper(w, ref, test, kw, seed=0):
-    det = det_cls(w)()
-    det.fit(X=ref)
+    try:
+        det = det_cls(w)()
+        det.fit(X=ref)
+    except Exception as e:  # noqa: BLE001  (a reference the direct SciPy call accepts but fit() rejects shows as a difference below)
+        return ("exc", type(e).__name__, "fit: " + str(e))
     np.random.seed(seed)
     try:
         res = det.compare(X=test, **dec_kw(kw))[0]
@@ -805,6 +808,72 @@ def run(ck: Check):
         ck.count("kuiper_long_cases")
         if math.isnan(pv) or not (0.0 <= pv <= 1.0):
             ck.violation(dict(clause="p-range", detector="KuiperTest", regime="long-shifted"), dict(what="Kuiper p-value is NaN or outside [0, 1] for long, strongly shifted samples", sizes=[n, m], statistic=float(res.statistic), p_value=repr(pv), construction="ref = arange(n), test = arange(m) + 0.6 n + 0.5"))
+    # ---------------- Kuiper with a LARGE effective size and a TINY statistic (3/N <= D, D sqrt(N) ~ 0.05-0.2): the asymptotic
+    # series then needs 18.82 / (D sqrt N) - hundreds of - terms and sums to ~1; reference = the same series summed in full with
+    # math.fsum, and the Coq model on the same (D, n, m)
+    for n, m, c in ((6000, 6000, 3.5), (6000, 6000, 7.0), (20000, 20000, 3.2), (9000, 4500, 4.0)):
+        N = n * m / float(n + m)
+        D = np.float64(c / N)
+        z = float(D) * math.sqrt(N)
+        ms = [float(k) for k in range(1, int(math.ceil(18.82 / z)))]
+        S1 = math.fsum(2 * (4 * k * k * z * z - 1) * math.exp(-2 * k * k * z * z) for k in ms)
+        S2 = math.fsum(k * k * (4 * k * k * z * z - 3) * math.exp(-2 * k * k * z * z) for k in ms)
+        ref_p = S1 - 8 * float(D) / 3 * S2
+        try:
+            pk = float(KT._false_positive_probability(D, N))
+        except Exception as e:  # noqa: BLE001
+            ck.violation(dict(clause="raises", detector="KuiperTest", scenario="large-N-tiny-D"), dict(D=float(D), N=N, error=repr(e)))
+            continue
+        ck.case(dict(kind="kuiper-large-N-tiny-D", n=n, m=m, D=float(D), terms=len(ms), p=pk), nontrivial=True, key=repr(("kuiper-tiny", n, m, c)))
+        ck.count("kuiper_large_N_tiny_D_cases")
+        if not close(pk, ref_p, 1e-9, 1e-9):
+            ck.violation(dict(clause="kuiper-p-value", regime="large-N-tiny-D"), dict(what="Kuiper false-positive probability differs from the asymptotic series summed in full", D=float(D), N=N, terms=len(ms), got=pk, expected=ref_p))
+    for n, shift in ((6000, 7), (20000, 5)) if thorough else ((6000, 7),):
+        ref = np.arange(n, dtype=float)
+        test = np.arange(n, dtype=float) + shift + 0.5   # interleaved grids shifted by a few ranks: D = (shift + 1) / n
+        try:
+            det = det_cls("Kuiper")()
+            det.fit(X=ref)
+            res = det.compare(X=test)[0]
+            pv = float(res.p_value)
+        except Exception as e:  # noqa: BLE001
+            ck.violation(dict(clause="raises", detector="KuiperTest", scenario="near-identical-long"), dict(n=n, error=repr(e)))
+            continue
+        ck.case(dict(kind="kuiper-near-identical-long", n=n, shift=shift, p=pv), nontrivial=True, key=repr(("kuiper-near", n, shift)))
+        ck.count("kuiper_near_identical_cases")
+        if not (pv >= 0.999):
+            ck.violation(dict(clause="kuiper-p-value", regime="near-identical-long"), dict(what="two interleaved grids of the same size shifted by a few ranks are as close as two samples can be: the Kuiper p-value must be ~1", n=n, shift=shift, statistic=float(res.statistic), p_value=pv))
+    # ---------------- options with a CALLBACK attached (a reset callback that never fires): compare(X, **options) returns what
+    # the same detector without callbacks returns (own generator)
+    from frouros.callbacks import ResetStatisticalTest as _RST
+
+    for w, optl in STICKY.items():
+        for kw in optl:
+            if w == "Chi":
+                ref = np.array([prng.choice("abc") for _ in range(40)])
+                test = np.array([prng.choice("aabc") for _ in range(30)])
+            else:
+                ref = np.array([prng.gauss(0, 1) for _ in range(9)])
+                test = np.array([prng.gauss(0.8, 1.5) for _ in range(7)])
+            try:
+                d0 = det_cls(w)()
+                d0.fit(X=ref)
+                np.random.seed(4242)
+                r0 = d0.compare(X=test, **kw)[0]
+                d1 = det_cls(w)(callbacks=[_RST(alpha=1e-300)])
+                d1.fit(X=ref)
+                np.random.seed(4242)
+                r1 = d1.compare(X=test, **kw)[0]
+            except Exception as e:  # noqa: BLE001
+                ck.violation(dict(clause="raises", detector=W[w]["cls"], scenario="option-with-callback"), dict(detector=W[w]["cls"], option=kw, error=repr(e)))
+                continue
+            ck.case(dict(kind="option-with-callback", detector=W[w]["cls"], option=kw), nontrivial=True, key=repr(("optcb", w, kw)))
+            ck.count("option_with_callback_cases")
+            eqf = lambda a, b_: a == b_ or (math.isnan(a) and math.isnan(b_))  # noqa: E731
+            if not (eqf(float(r0.statistic), float(r1.statistic)) and eqf(float(r0.p_value), float(r1.p_value))):
+                ck.violation(dict(clause="options-honoured", detector=W[w]["cls"], cause="callback-attached"),
+                             dict(what="with a callback attached, compare(X, **options) does not return what the same detector without callbacks returns for these options", detector=W[w]["cls"], option=kw,
+                                  without_callback=[float(r0.statistic), float(r0.p_value)], with_callback=[float(r1.statistic), float(r1.p_value)], ref=ref.tolist(), test=test.tolist()))
     # ---------------- forwarding: model's predicted call vs the call observed by the spy
     FOREIGN = ["X", "X_ref", "equal_var", "foo", "alternative", "method", "correction", "nan_policy", "midrank"]
     VALUES = ["two-sided", "less", "auto", "exact", "raise", "omit", True, False, None, 0, 3, 0.1, 0.5, "OBJ"]
